@@ -260,7 +260,7 @@ func expandRoutes(r *rand.Rand, V *model.Node, p []seg, wantLen int, f fault, ba
 	// holder when nothing exists at the setting) lies strictly inside the
 	// list or object built from the text
 	carrier := len(p)
-	if f.parentRaised && f.wantRel == "" {
+	if f.del && f.wantRel == "" {
 		carrier--
 	}
 	inside := len(a) < carrier
